@@ -8,6 +8,30 @@ From Verif Require Import Bytes Textproto SendErr RefServer SmtpSend.
 From VerifProofs Require Import SmtpSendProofs SmtpSendCorollaries.
 Open Scope N_scope.
 
+(* nil entries: the results stay aligned with the batch; a nil entry reports nothing; the results of the messages
+   that exist are exactly those of the run without the nil entries *)
+Fixpoint pick (oms : list (option msg)) (rs : list mres) : list mres :=
+  match oms, rs with
+  | None :: t, _ :: rt => pick t rt
+  | Some _ :: t, r :: rt => r :: pick t rt
+  | _, _ => []
+  end.
+
+Lemma align_spec : forall oms rs, length rs = length (somes oms) ->
+  length (align oms rs) = length oms /\
+  (forall k, nth_error oms k = Some None -> nth_error (align oms rs) k = Some (mkRes None false None)) /\
+  pick oms (align oms rs) = rs.
+Proof.
+  induction oms as [|[m|] t IH]; intros rs H.
+  - destruct rs; [|discriminate]. cbn. split; [reflexivity|split; [intros k E; destruct k; discriminate|reflexivity]].
+  - destruct rs as [|r rt]; [discriminate|]. cbn in H. injection H as H. destruct (IH rt H) as (L & N & P).
+    cbn [align pick length]. split; [f_equal; exact L|]. split; [|f_equal; exact P].
+    intros k E. destruct k; [discriminate|]. cbn in *. apply N. exact E.
+  - cbn in H. destruct (IH rs H) as (L & N & P). cbn [align pick length].
+    split; [f_equal; exact L|]. split; [|exact P].
+    intros k E. destruct k; [reflexivity|]. cbn in *. apply N. exact E.
+Qed.
+
 Section Programs.
 Variable F : fixes.
 Hypothesis HF : dialogue_repaired F.
